@@ -80,7 +80,7 @@ theorem execution_roundtrip (cfg : Cfg) (e : Execution) (h : e.wf) :
   · unfold deserializeExecution decodeBytes decodeStream
     have hs : sortedTypes (executionRecs.map (·.typ)) = true := by decide
     rw [if_pos hs]
-    have hmain := decodeLoop_encAligned cfg.p2pSub cfg.maxAlloc false
+    have hmain := decodeLoop_encAligned cfg.p2pSub cfg.maxAlloc cfg.typesSub
       (fun _ v (e : Execution) => { e with pendingChannelID := v })
       executionRecs [some e.pendingChannelID] 0 {} [] _
       (by simp [executionRecs, IncFrom, pendingChannelIDType])
@@ -114,7 +114,7 @@ theorem order_roundtrip (cfg : Cfg) (o : Order) (h : o.wf) :
   · unfold deserializeOrder decodeBytes decodeStream
     have hs : sortedTypes (orderRecs.map (·.typ)) = true := by decide
     rw [if_pos hs]
-    have hmain := decodeLoop_encAligned cfg.p2pSub cfg.maxAlloc false
+    have hmain := decodeLoop_encAligned cfg.p2pSub cfg.maxAlloc cfg.typesSub
       (fun t v (o : Order) => if t = bidNonceType then { o with bidNonce := v }
         else { o with sigOrderDigest := parseSig v })
       orderRecs (orderVals o) 0 {} [] _
@@ -204,7 +204,7 @@ theorem recipient_roundtrip (cfg : Cfg) (r : Recipient) (h : r.wf) :
     simp only at hi hn hm
     have hidx := static_good (σ := Recipient) 4 (by decide) (fun v r => { r with multiSigKeyIndex := beNat v })
       (toBE 4 i) (toBE_length 4 i)
-    have hmain := decodeLoop_encAligned cfg.p2pSub cfg.maxAlloc false recipientStep
+    have hmain := decodeLoop_encAligned cfg.p2pSub cfg.maxAlloc cfg.typesSub recipientStep
       recipientRecs (recipientVals ⟨n, m, i⟩) 0 {} [] _
       (by simp [recipientRecs, IncFrom, nodePubKeyType, multiSigPubKeyType, multiSigKeyIndexType])
       (by
@@ -362,7 +362,7 @@ theorem offer_roundtrip (cfg : Cfg) (o : Offer) (h : o.wf) :
   · unfold deserializeOffer decodeBytes decodeStream
     have hs : sortedTypes (offerRecs.map (·.typ)) = true := by decide
     rw [if_pos hs]
-    have hmain := decodeLoop_encAligned cfg.p2pSub cfg.maxAlloc false offerStep
+    have hmain := decodeLoop_encAligned cfg.p2pSub cfg.maxAlloc cfg.typesSub offerStep
       offerRecs (offerVals o) 0 {} [] _
       (by simp [offerRecs, IncFrom, capacityType, pushAmtType, leaseDurationType, signPubKeyType,
             sigOfferDigestType, offerAutoType, unannouncedChannelType, zeroConfChannelType])
